@@ -188,6 +188,23 @@ def pin_enum_layouts(dst: Path):
     return done
 
 
+def neutralise_unit_tests(repo_copy: Path):
+    """Native replay runs through `cargo test`; the crate's own unit tests (and their
+    dev-dependencies: hyper, tokio runtime, ...) are not wanted there and do not build against
+    the retained models.  In the replay copy only: cfg(test) items off, cfg(not(test)) items
+    on, dev-dependencies and benches removed."""
+    for f in (repo_copy / "penguin-mux" / "src").rglob("*.rs"):
+        t = f.read_text()
+        t2 = t.replace("#[cfg(test)]", "#[cfg(any())]").replace("#[cfg(not(test))]", "#[cfg(all())]")
+        if t2 != t:
+            f.write_text(t2)
+    m = repo_copy / "penguin-mux" / "Cargo.toml"
+    t = m.read_text()
+    t = re.sub(r"\[dev-dependencies\].*?(?=\n\[)", "", t, flags=re.S)
+    t = re.sub(r"\[\[bench\]\].*?(?=\n\[)", "", t, flags=re.S)
+    m.write_text(t)
+
+
 def patches_text(shims: list[str], shim_dir: Path) -> str:
     return "\n".join(f'{s} = {{ path = "{shim_dir / s}" }}' for s in shims)
 
@@ -406,15 +423,22 @@ def parse_cbmc_json(path: Path):
                 desc = p.get("description", "")
                 desc = re.sub(r"^\[KANI_CHECK_ID_[^\]]*\]\s*", "", desc)
                 vals = []
+                # the values chosen for kani::any(): same rule as Kani's concrete playback
+                # (assignments to the return value inside kani::any_raw_*)
                 for s in p.get("trace", []) or []:
-                    if s.get("stepType") == "assignment" and (s.get("sourceLocation") or {}).get("function", "").startswith("kani::any"):
-                        v = s.get("value", {})
-                        if "data" in v or "binary" in v:
-                            vals.append(dict(lhs=s.get("lhs"), data=v.get("data"), width=v.get("width")))
+                    if s.get("stepType") != "assignment":
+                        continue
+                    if not (s.get("sourceLocation") or {}).get("function", "").startswith("kani::any_raw_"):
+                        continue
+                    if not str(s.get("lhs", "")).startswith("goto_symex$$return_value"):
+                        continue
+                    v = s.get("value", {})
+                    if v.get("binary") is not None and v.get("width"):
+                        vals.append(dict(data=v.get("data"), width=v.get("width"), binary=v.get("binary")))
                 res["props"].append(dict(
                     id=p.get("property"), cls=sl.get("propertyClass") or (p.get("property", "").rsplit(".", 2)[-2] if p.get("property", "").count(".") >= 2 else ""),
                     status=p.get("status"), desc=desc.strip().strip('"'), file=sl.get("file"), line=sl.get("line"),
-                    func=sl.get("function"), trace_vals=vals[:64]))
+                    func=sl.get("function"), trace_vals=vals[:4096]))
         if "cProverStatus" in e:
             res["status"] = e["cProverStatus"]
     st["solver_s"] = round(solver_s, 3)
@@ -649,33 +673,31 @@ def match_known(known, prop_id, harness, desc):
 PLAYBACK_RE = re.compile(r"```\n(/// Test generated for harness.*?)```", re.S)
 
 
-def concrete_playback(prop, kind, profile, harness, pretty, sc: Scratch, builds, seed):
+def concrete_playback(prop, kind, profile, harness, pretty, sc: Scratch, builds, seed, viols):
     """Ask Kani for the concrete test of a failing harness, then run it natively against a
     workspace that uses the REAL dependencies wherever a real counterpart exists.
     Returns dict(reproduced=bool|None, detail=str, test=str)."""
     b = builds[(kind, profile)]
-    cwd, pkg_args = b["cwd"], b["pkg_args"]
-    tdir = sc.root / f"target-pb-{kind}-{profile}"
-    cmd = ["cargo", "kani", "--target-dir", str(tdir), "-Z", "concrete-playback", "--concrete-playback=print",
-           "--harness", pretty, "--exact"] + pkg_args
     env = cargo_env()
     env["VERIF_SEED"] = str(seed)
-    lf = sc.root / f"pb-{harness}.log"
-    with open(lf, "w") as f:
-        subprocess.run(cmd, cwd=cwd, env=env, stdout=f, stderr=subprocess.STDOUT, timeout=3600,
-                       preexec_fn=_limits(24))
-    shutil.rmtree(tdir, ignore_errors=True)
-    txt = lf.read_text(errors="replace")
-    tests = PLAYBACK_RE.findall(txt)
+    tests = []
+    for i, v in enumerate(viols[:3]):
+        tv = v.get("trace_vals") or []
+        rows = []
+        for x in tv:
+            w = int(x["width"])
+            nbytes = max(1, (w + 7) // 8)
+            val = int(x["binary"], 2)
+            by = val.to_bytes(nbytes, "little")
+            rows.append("        std::vec![" + ", ".join(str(c) for c in by) + "],")
+        tname = f"kani_concrete_playback_{harness}_{i}"
+        tests.append(f"/// Test generated for harness `{pretty}` from the CBMC trace\n/// Check for `assertion`: {v['desc']!r}\n#[test]\nfn {tname}() {{\n    let concrete_vals: std::vec::Vec<std::vec::Vec<u8>> = std::vec![\n" + "\n".join(rows) + f"\n    ];\n    kani::concrete_playback_run(concrete_vals, {harness});\n}}\n")
     if not tests:
-        return dict(reproduced=None, detail="kani produced no concrete playback test", test="")
+        return dict(reproduced=None, detail="no counterexample trace available", test="")
     # native workspaces: real crates (only shims without a real counterpart stay); one per
     # native mode: `dev` (debug assertions on) and `release` (optimised, assertions off)
     results = []
     keep_shims = b.get("native_shims", [])
-    tests = [t for t in tests if "Check for `cover`" not in t][:3]
-    if not tests:
-        return dict(reproduced=None, detail="kani produced only cover playback tests", test="")
     nat = sc.root / f"native-{kind}-{harness}"
     for mode in ("dev", "release"):
         root = nat / mode
@@ -691,6 +713,7 @@ def concrete_playback(prop, kind, profile, harness, pretty, sc: Scratch, builds,
             hcopy = root / "harness"
             shutil.copytree(VERIF / "harness", hcopy)
             copy_repo(repo_copy, mode, keep_shims, VERIF / "shims", True, hcopy)
+            neutralise_unit_tests(repo_copy)
             ncwd = repo_copy
             modfile = hcopy / "mux" / (b["module_of"](harness))
             npkg = ["-p", "penguin-mux", "--no-default-features", "--features", MUX_FEATURES]
@@ -838,7 +861,7 @@ def run_property(pid: str, tier: str, jobs: int, only: str | None, keep: bool, r
             if replay:
                 log(f"[{pid}] replaying {r['name']} natively …")
                 try:
-                    rp = concrete_playback(pid, kind, r["profile"], r["name"], r.get("pretty", r["name"]), sc, builds, seed)
+                    rp = concrete_playback(pid, kind, r["profile"], r["name"], r.get("pretty", r["name"]), sc, builds, seed, new_viol)
                 except Exception as e:  # noqa
                     rp = dict(reproduced=None, detail=f"replay machinery error {e!r}", test="")
                 r["replay"] = dict(reproduced=rp["reproduced"], detail=rp["detail"])
@@ -856,7 +879,7 @@ def run_property(pid: str, tier: str, jobs: int, only: str | None, keep: bool, r
             rfile.write_text(json.dumps(dict(
                 property=pid, harness=r["name"], profile=r["profile"],
                 failing=[dict(assertion=v["desc"], at=f"{v['file']}:{v['line']}", function=v["func"],
-                              unexpected_panic=v.get("unexpected_panic", False), symbolic_inputs=v["trace_vals"]) for v in new_viol],
+                              unexpected_panic=v.get("unexpected_panic", False), symbolic_inputs=[x.get("data") for x in v["trace_vals"]][:256]) for v in new_viol],
                 native_replay=(rp or {}).get("detail"), playback_test=(rp or {}).get("test"),
                 repo_tree_sha=sha256_tree(REPO, REPO_CRATES), how_to_replay=f"./check {pid} --harness '^{r['name']}$' --tier {tier}"), indent=1))
             n_viol += 1
